@@ -8,60 +8,7 @@ PID = "C17"
 LEVEL = "exploration"
 CASE_TIMEOUT = 600.0
 
-# frozen from the architecture description: config word per accelerator {macs log2 [3:0], version [7:4], shram KiB [15:8], product [31:28]}
-EXPECT_CFG = {"Ethos_U55_32": 0x00001005, "Ethos_U55_64": 0x00001006, "Ethos_U55_128": 0x00001807, "Ethos_U55_256": 0x00003008,
-              "Ethos_U65_256": 0x10003008, "Ethos_U65_512": 0x10006009}
-ID_WORD = 0x10060000
-ACC_CLI = {"ethos-u55-32": "Ethos_U55_32", "ethos-u55-64": "Ethos_U55_64", "ethos-u55-128": "Ethos_U55_128", "ethos-u55-256": "Ethos_U55_256",
-           "ethos-u65-256": "Ethos_U65_256", "ethos-u65-512": "Ethos_U65_512"}
-
-
-class FrameError(Exception):
-    def __init__(self, clause, msg):
-        super().__init__(msg)
-        self.clause = clause
-
-
-def parse_payload(data, acc_name):
-    """-> list of command words; raises FrameError"""
-    if len(data) % 4:
-        raise FrameError("length-not-multiple-of-4", "payload length %d" % len(data))
-    w = struct.unpack("<%dI" % (len(data) // 4), data)
-    if not w or w[0] != 0x31504F43:
-        raise FrameError("fourcc", "payload does not start with COP1: %s" % (hex(w[0]) if w else None))
-    i = 1
-    seen_config = False
-    while True:
-        if i >= len(w):
-            raise FrameError("no-cmdstream-action", "ran off the end looking for the command stream action")
-        tag, reserved, param = w[i] & 0xFF, (w[i] >> 8) & 0xFF, w[i] >> 16
-        if tag == 1:  # config
-            if i + 2 >= len(w):
-                raise FrameError("config-truncated", "config action truncated")
-            if w[i + 1] != EXPECT_CFG[acc_name]:
-                raise FrameError("config-word", "config word %#010x, expected %#010x for %s" % (w[i + 1], EXPECT_CFG[acc_name], acc_name))
-            if w[i + 2] != ID_WORD:
-                raise FrameError("id-word", "id word %#010x, expected %#010x" % (w[i + 2], ID_WORD))
-            if param != 0x10 or reserved != 0:
-                raise FrameError("config-tag", "config tag param %#x reserved %#x" % (param, reserved))
-            seen_config = True
-            i += 3
-        elif tag == 5:  # NOP
-            if w[i] != 5:
-                raise FrameError("nop-nonzero", "NOP with payload %#x" % w[i])
-            i += 1
-        elif tag == 2:  # command stream
-            if not seen_config:
-                raise FrameError("config-missing", "command stream action before any config action")
-            n = param | (reserved << 16)
-            i += 1
-            if (i * 4) % 16:
-                raise FrameError("cmd-words-not-16-byte-aligned", "first command word at byte offset %d" % (i * 4))
-            if len(w) - i != n:
-                raise FrameError("length-field", "declared %d command words, %d follow" % (n, len(w) - i))
-            return list(w[i:])
-        else:
-            raise FrameError("unknown-action", "unknown driver action %#x at word %d" % (w[i], i))
+from vv.payload import ACC_CLI, EXPECT_CFG, ID_WORD, FrameError, parse_payload  # noqa: E402,F401
 
 
 def gen_cases(tier, seed):
